@@ -377,7 +377,7 @@ def kept_schedule(obs, alias, created):
     def entry(state):
         for item in state["dict"]:
             key, val = item.split("=", 1)
-            if bytes.fromhex(key).decode("utf-8", "surrogatepass") == alias:
+            if bytes.fromhex(key).decode("utf-8", "surrogatepass").split("\0")[0] == alias:  # (a key may carry more than the instance name)
                 f = val.split(",")
                 return int(f[4]), f[5]
         return None
